@@ -26,23 +26,32 @@ PROPS = {
                 quick=dict(batches=48, units=250, wall=75),
                 thorough=dict(batches=480, units=500, wall=1500)),
     "C04": dict(engine="ptable", level="exploration",
-                quick=dict(batches=48, units=250, wall=75),
-                thorough=dict(batches=480, units=500, wall=1500)),
+                quick=dict(batches=40, units=250, wall=75, legs=[
+                    dict(engine="threads", batches=16, units=40)]),
+                thorough=dict(batches=400, units=500, wall=1500, legs=[
+                    dict(engine="threads", batches=160, units=80)])),
     "C05": dict(engine="ptable", level="exploration",
                 quick=dict(batches=48, units=250, wall=75),
                 thorough=dict(batches=480, units=500, wall=1500)),
     "C07": dict(engine="counters", level="exploration",
-                quick=dict(batches=48, units=250, wall=75),
-                thorough=dict(batches=480, units=500, wall=1500)),
+                quick=dict(batches=40, units=250, wall=75, legs=[
+                    dict(engine="threads", batches=16, units=40)]),
+                thorough=dict(batches=400, units=500, wall=1500, legs=[
+                    dict(engine="threads", batches=160, units=80)])),
     "C10": dict(engine="counters", level="exploration",
-                quick=dict(batches=48, units=250, wall=75),
-                thorough=dict(batches=480, units=500, wall=1500)),
+                quick=dict(batches=40, units=250, wall=75, legs=[
+                    dict(engine="threads", batches=16, units=40)]),
+                thorough=dict(batches=400, units=500, wall=1500, legs=[
+                    dict(engine="threads", batches=160, units=80)])),
     "C14": dict(engine="fdtable", level="exploration",
                 quick=dict(batches=48, units=8, wall=75),
                 thorough=dict(batches=480, units=16, wall=1500)),
     "C15": dict(engine="vtime", level="exploration",
                 quick=dict(batches=48, units=300, wall=75),
                 thorough=dict(batches=480, units=600, wall=1500)),
+    "C16": dict(engine="threads", level="exploration",
+                quick=dict(batches=48, units=40, wall=80),
+                thorough=dict(batches=480, units=80, wall=1500)),
     "C03": dict(engine="faultpoint", level="fault_enumeration",
                 quick=dict(batches=32, units=1, wall=75),
                 thorough=dict(batches=320, units=2, wall=1500)),
@@ -100,15 +109,16 @@ class Master:
         if self.root:
             build.remove_scratch(self.root)
 
-    def batch_spec(self, b, units):
-        bseed = H(self.seed, self.prop, "batch", b)
+    def batch_spec(self, b, units, engine_name=None):
+        engine_name = engine_name or self.engine_name
+        bseed = H(self.seed, self.prop, "batch", engine_name, b)
         rng = random.Random(bseed)
-        boot = self.engine.boot_config(rng)
+        boot = load_engine(engine_name).boot_config(rng)
         return {
-            "mode": "batch", "engine": self.engine_name,
+            "mode": "batch", "engine": engine_name,
             "property": self.prop, "tier": self.tier, "scratch": self.tree,
             "boot": boot, "hashseed": str(bseed % 4), "batch": b,
-            "units": [H(self.seed, self.prop, "unit", b, i)
+            "units": [H(self.seed, self.prop, "unit", engine_name, b, i)
                       for i in range(units)],
         }
 
@@ -150,7 +160,19 @@ class Master:
         nb, units, wall = t["batches"], t["units"], t["wall"]
         t0 = time.time()
         deadline = t0 + wall
-        pending = list(range(nb))
+        pending = [(self.engine_name, b, units) for b in range(nb)]
+        for leg in t.get("legs") or []:
+            extra = [(leg["engine"], b, leg["units"])
+                     for b in range(leg["batches"])]
+            # interleave so that a wall-clock cut hits every leg evenly
+            step = max(1, len(pending) // max(1, len(extra)))
+            merged = []
+            while pending or extra:
+                merged.extend(pending[:step])
+                pending = pending[step:]
+                if extra:
+                    merged.append(extra.pop(0))
+            pending = merged
         running = []
         results = []
         truncated = False
@@ -160,10 +182,10 @@ class Master:
                     truncated = True
                     pending = []
                     break
-                b = pending.pop(0)
-                spec = self.batch_spec(b, units)
+                ename, b, nunits = pending.pop(0)
+                spec = self.batch_spec(b, nunits, ename)
                 spec["deadline"] = deadline + 20
-                proc, op = self.run_worker(spec, "b%05d" % b)
+                proc, op = self.run_worker(spec, "b-%s-%05d" % (ename, b))
                 running.append((b, spec, proc, op, time.time()))
             still = []
             for (b, spec, proc, op, ts) in running:
@@ -174,18 +196,20 @@ class Master:
                     continue
                 res = self.wait_worker(proc, op, 5)
                 res["batch"] = b
+                res["engine"] = spec["engine"]
                 res["boot"] = spec["boot"]
                 res["hashseed"] = spec["hashseed"]
                 results.append(res)
             running = still
             if running:
                 time.sleep(0.05)
-        results.sort(key=lambda r: r["batch"])
+        results.sort(key=lambda r: (r["engine"], r["batch"]))
         return results, truncated, time.time() - t0
 
     def shrink_and_confirm(self, v, res):
         """Returns (replay_path | None, info)."""
-        base = {"engine": self.engine_name, "property": self.prop,
+        base = {"engine": res.get("engine", self.engine_name),
+                "property": self.prop,
                 "tier": self.tier, "scratch": self.tree, "boot": res["boot"],
                 "hashseed": res["hashseed"]}
         spec = dict(base, mode="shrink", plan=v["plan"], sig=v["sig"],
@@ -212,7 +236,8 @@ class Master:
                if sig_str((x["clause"], tuple(sorted(x.get("tags") or ())),
                            x.get("api"))) == want][0]
         with open(path, "w") as f:
-            json.dump({"property": self.prop, "engine": self.engine_name,
+            json.dump({"property": self.prop,
+                       "engine": res.get("engine", self.engine_name),
                        "boot": res["boot"], "hashseed": res["hashseed"],
                        "signature": v["sig"], "message": msg,
                        "digest": digest, "plan": plan,
@@ -331,13 +356,18 @@ def run_check(prop, tier, seed, jobs):
                 reported.append((s, path, info, cnt))
         wall = time.time() - t0
         level = m.cfg["level"]
-        probes = getattr(eng, "PROBES_BY_PROP", {}).get(
-            prop, getattr(eng, "PROBES", []))
+        engs = [eng] + [load_engine(l["engine"])
+                        for l in m.cfg[tier].get("legs") or []]
+        probes = []
+        for e_ in engs:
+            probes += getattr(e_, "PROBES_BY_PROP", {}).get(
+                prop, getattr(e_, "PROBES", []))
         probes_at_zero = [p for p in probes if not agg["stats"].get(p)]
         cov = {
             "evaluations": agg["evals"],
             "distinct_nontrivial": len(agg["keys"]),
-            "rule": eng.RULE if hasattr(eng, "RULE") else "",
+            "rule": " || ".join("[%s] %s" % (e_.name, getattr(e_, "RULE", ""))
+                                for e_ in engs),
             "samples": agg["samples"] or ["(none)"],
             "exhaustive": False,
             "units": agg["units"],
@@ -345,7 +375,8 @@ def run_check(prop, tier, seed, jobs):
             "truncated_by_wall_clock": truncated,
         }
         extra = {
-            "assumptions": list(getattr(eng, "ASSUMPTIONS", [])),
+            "assumptions": [a for e_ in engs
+                            for a in getattr(e_, "ASSUMPTIONS", [])],
             "runs": agg["evals"],
             "runs_per_hour": int(agg["evals"] / max(wall, 1e-6) * 3600),
             "seeds": {"base": seed, "derivation": "H(base, property, "
@@ -358,7 +389,14 @@ def run_check(prop, tier, seed, jobs):
             "probes": {k: v for k, v in sorted(agg["stats"].items())
                        if not k.startswith(("ev_", "fault_"))},
             "probes_at_zero": probes_at_zero,
-            "components": getattr(eng, "COMPONENTS", {}),
+            "components": {
+                "real": sorted({x for e_ in engs for x in getattr(
+                    e_, "COMPONENTS", {}).get("real", [])}),
+                "stub": sorted({x for e_ in engs for x in getattr(
+                    e_, "COMPONENTS", {}).get("stub", [])})},
+            "runs_per_engine": {e_.name: sum(
+                r.get("evals", 0) for r in results
+                if r.get("engine") == e_.name) for e_ in engs},
             "known_findings": sorted(known_seen),
             "hashseeds": sorted({r["hashseed"] for r in results}),
             "boot_worlds": len({json.dumps(r["boot"], sort_keys=True)
